@@ -11,7 +11,7 @@ The model (`Model/HostMap.lean`) follows the Go code after the F08 `fix:` commit
 `Lemmas/HostMapInv.lean`; operations are the entry points the rest of nebula uses (`Op`), with *any* tunnel id as
 argument, so stale deletes / promotions / relay requests are part of every history.
 -/
-import Nebula.Lemmas.HostMapRun
+import Nebula.Lemmas.HostMapStep
 
 namespace Nebula.Props.C28
 open Nebula.HostMap Nebula.HostMap.FMap
@@ -52,7 +52,7 @@ theorem list_has_primary (s : State) (i : Inv s) (a x : Nat) (hx : x ∈ hostLis
 theorem reachable_is_live (s : State) (i : Inv s) (k h : Nat) :
     (s.indexes.get k = some h → Live s h ∧ (s.obj h).lidx = k) ∧
     (s.rindexes.get k = some h → Live s h ∧ (s.obj h).ridx = k) ∧
-    (s.relays.get k = some h → Live s h ∧ k ∈ (s.obj h).relays) := by
+    (s.relays.get k = some h → Live s h ∧ ((s.rstate h).byIdx.get k).isSome = true) := by
   refine ⟨fun e => ?_, fun e => i.core.ridx k h e, fun e => ⟨(i.core.rel k h e).1, (i.core.rel k h e).2.1⟩⟩
   have := (i.core.idx k h e).1
   exact ⟨by simpa [Live, this] using e, this⟩
@@ -126,8 +126,8 @@ theorem no_resurrection (s : State) (h : Nat) (hd : ¬ Live s h) : makePrimary s
   simp [hd]
 
 /-- … nor by a relay request (`AddRelay` refuses) -/
-theorem no_resurrection_by_relay (s : State) (h : Nat) (st : List Nat) (hd : ¬ Live s h) :
-    (addRelay s h st).1 = s ∧ ∀ idx, (addRelay s h st).2 ≠ .ok idx := by
+theorem no_resurrection_by_relay (s : State) (h : Nat) (rel : Relay) (st : List Nat) (hd : ¬ Live s h) :
+    (addRelay s h rel st).1 = s ∧ ∀ idx, (addRelay s h rel st).2 ≠ AllocRes.ok idx := by
   have hm := no_resurrection s h hd
   unfold addRelay
   generalize (32 : Nat) = fuel
@@ -151,8 +151,53 @@ theorem promotion_effect (s : State) (i : Inv s) (h : Nat) (hl : Live s h) :
   obtain ⟨_, same, hok⟩ := makePrimary_inv i h
   exact ⟨hok.mpr hl, same.indexes, same.rindexes, same.relays⟩
 
+/-- relay indexes: every `Relays` entry is owned by a live tunnel that lists it in `relayForByIdx`, every index a live
+tunnel lists is registered to it in `Relays`, and each tunnel's `relayForByAddr` / `relayForByIdx` agree — after every
+operation sequence (including final deletes, which run `unlockedDisestablishVpnAddrRelayFor`) -/
+theorem relay_state_consistent (ops : List Op) :
+    let s := run {} ops
+    (∀ i h, s.relays.get i = some h → Live s h ∧ ((s.rstate h).byIdx.get i).isSome = true) ∧
+    (∀ h i, Live s h → ((s.rstate h).byIdx.get i).isSome = true → s.relays.get i = some h) ∧
+    (∀ h a r, (s.rstate h).byAddr.get a = some r → r.peer = a ∧ (s.rstate h).byIdx.get r.lidx = some r) ∧
+    (∀ h i r, (s.rstate h).byIdx.get i = some r → r.lidx = i ∧ ((s.rstate h).byAddr.get r.peer).isSome = true) := by
+  have i := run_inv ops {} Nebula.HostMap.inv_init
+  exact ⟨fun k h e => ⟨(i.core.rel k h e).1, (i.core.rel k h e).2.1⟩, i.core.relOwn,
+    fun h => (i.core.rok h).1, fun h => (i.core.rok h).2⟩
+
+/-- a delete only rewrites relay *state*: no tunnel's relay maps gain or lose a key, and they stay in agreement -/
+theorem delete_keeps_relay_keys (s : State) (i : Inv s) (h x k : Nat) :
+    (((deleteHost s h).1.rstate x).byIdx.get k).isSome = ((s.rstate x).byIdx.get k).isSome ∧
+    (((deleteHost s h).1.rstate x).byAddr.get k).isSome = ((s.rstate x).byAddr.get k).isSome := by
+  have d := deleteHost_spec s h i.core.rep i.core.nodup
+  obtain ⟨_, _, k1, k2⟩ := d.rs x (i.core.rok x)
+  exact ⟨k1 k, k2 k⟩
+
+/-- **the run-time oracle is the invariant**: the executable check applied to every implementation dump returns no
+violation exactly when `Inv` holds of the dumped state -/
+theorem invCheck_iff_Inv (s : State) : Nebula.Spec.HostMap.invCheck s = none ↔ Inv s :=
+  Nebula.HostMap.invCheck_iff_Inv s
+
+/-- … and the transition oracle is the step relation `Step` (no resurrection, release only by the owner) -/
+theorem stepCheck_iff_Step (pre post : State) (fresh : List Nat) :
+    Nebula.Spec.HostMap.stepCheck pre post fresh = none ↔ Step pre post fresh :=
+  Nebula.HostMap.stepCheck_iff_Step pre post fresh
+
+/-- every operation of the model, from every state satisfying the invariant, satisfies the step relation: no tunnel
+enters the main hostmap except the one being completed, and index / relay index / pending index / remote index entries
+disappear only together with their tunnel (or, for remote indexes, are shadowed by the new tunnel) -/
+theorem step_all_ops (s : State) (i : Inv s) (op : Op) : Step s (applyOp s op) (freshOf s op) := applyOp_step i op
+
+/-- hence the transition oracle never fires on the model -/
+theorem stepCheck_silent_on_model (ops : List Op) (op : Op) :
+    Nebula.Spec.HostMap.stepCheck (run {} ops) (applyOp (run {} ops) op) (freshOf (run {} ops) op) = none :=
+  Nebula.HostMap.stepCheck_silent_on_model (inv_all_histories ops) op
+
+/-- hence the oracle never fires on the model, whatever the history -/
+theorem oracle_silent_on_model (ops : List Op) : Nebula.Spec.HostMap.invCheck (run {} ops) = none :=
+  (Nebula.HostMap.invCheck_iff_Inv _).mpr (inv_all_histories ops)
+
 -- non-vacuity: a history with the cap exceeded, a stale delete after the index was reused, a promotion and a relay
-example : Inv (run {} [.resp [1] 7 1 1 [5], .del 1, .resp [1, 2] 8 2 2 [5], .del 1, .prim 1, .relay 2 [9]]) :=
+example : Inv (run {} [.resp [1] 7 1 1 [5], .del 1, .resp [1, 2] 8 2 2 [5], .del 1, .prim 1, .relay 2 { type := 1, state := 2, peer := 3 } [9]]) :=
   inv_all_histories _
 example : (run {} [.resp [1] 7 1 1 [5], .del 1, .resp [1, 2] 8 2 2 [5], .del 1]).indexes.get 5 = some 2 := by decide
 example : (deleteHost (run {} [.resp [1] 7 1 1 [5], .resp [1] 8 2 2 [6]]) 2).2 = false := by decide
